@@ -116,9 +116,13 @@ class _Hash:
         else:
             raise ValueError("unsupported hash type " + name)
         self.name, self.msg = name, data
+        self.block_size = 128 if name in ("sha512", "sha384") else 64
 
     def update(self, m):
         self.msg = self.msg + m
+
+    def copy(self):
+        return _Hash(self.name, self.msg)
 
     def digest(self, length=None):
         if self.digest_size == 0 and length is None:
@@ -141,13 +145,29 @@ class _Hash:
 
 
 class HashlibShim:
-    """stands in for the `hashlib` module inside toolkit.hash"""
+    """stands in for the `hashlib` module inside toolkit.hash and toolkit.prf.hmac_prf"""
     algorithms_available = set(_DIGEST_SIZE) | {"shake_128", "shake_256"}
     algorithms_guaranteed = algorithms_available
 
     @staticmethod
     def new(name, data=b"", **kw):
         return _Hash(name, data)
+
+    @staticmethod
+    def sha1(data=b""):
+        return _Hash("sha1", data)
+
+    @staticmethod
+    def sha256(data=b""):
+        return _Hash("sha256", data)
+
+    @staticmethod
+    def sha512(data=b""):
+        return _Hash("sha512", data)
+
+    @staticmethod
+    def md5(data=b""):
+        return _Hash("md5", data)
 
 
 # ---------------------------------------------------------------- ideal cipher
@@ -233,6 +253,47 @@ def pkcs7_unpad(padded, block_size):
     if padded[-p:] != bytes([p]) * p:
         raise ValueError("Invalid padding bytes.")
     return padded[:-p]
+
+
+class _Padder:
+    def __init__(self, k):
+        self.k, self.buf = k, b""
+
+    def update(self, data):
+        self.buf = self.buf + data
+        return b""
+
+    def finalize(self):
+        p = self.k - len(self.buf) % self.k
+        return self.buf + bytes([p]) * p
+
+
+class _Unpadder:
+    def __init__(self, k):
+        self.k, self.buf = k, b""
+
+    def update(self, data):
+        self.buf = self.buf + data
+        return b""
+
+    def finalize(self):
+        return pkcs7_unpad(self.buf, self.k * 8)
+
+
+class PaddingShim:
+    """stands in for cryptography.hazmat.primitives.padding inside toolkit.symmetric_padding, so that the
+    repository's own pkcs7_pad / pkcs7_unpad run on symbolic bytes (exact PKCS7 semantics, RFC 5652 6.3)"""
+    class PKCS7:
+        def __init__(self, block_size):
+            if not isinstance(block_size, int) or not (0 <= block_size <= 2040) or block_size % 8:
+                raise ValueError("block_size must be in range(0, 2041) and a multiple of 8.")
+            self.k = block_size // 8
+
+        def padder(self):
+            return _Padder(self.k)
+
+        def unpadder(self):
+            return _Unpadder(self.k)
 
 
 class OsShim:
@@ -348,11 +409,12 @@ def install(ideal_ffx=True, lcg_seed=7):
         _SAVED.update(hmac=hp.hmac, cipher=aes.Cipher, algorithms=aes.algorithms, modes=aes.modes,
                       pad=aes.pkcs7_pad, unpad=aes.pkcs7_unpad, aes_os=aes.os, hashlib=th.hashlib, ffx=bfp.BitwiseFFX)
     hp.hmac = HmacShim
+    hp.hashlib = HashlibShim
     aes.Cipher = CipherShim
     aes.algorithms = AlgorithmsShim
     aes.modes = ModesShim
-    aes.pkcs7_pad = pkcs7_pad
-    aes.pkcs7_unpad = pkcs7_unpad
+    import toolkit.symmetric_padding as sp
+    sp.padding = PaddingShim          # the repository's own pkcs7_pad / pkcs7_unpad stay in place
     aes.os = OsShim
     th.hashlib = HashlibShim
     if ideal_ffx:
